@@ -570,3 +570,20 @@ Proof.
   intros en. unfold en. repeat match goal with |- _ /\ _ => split end; unfold call_fn; rsimpl; try reflexivity.
   destruct (layout_ok cap m); rsimpl; reflexivity.
 Qed.
+
+(* ---------- chunk iteration: the slice a footer reports (ChunkFooter::as_raw_parts; `self` is the
+   footer, by address): from its finger up to the footer itself — the pair of ArenaModel.q_iter_chunks ---------- *)
+Definition footer_self (foot start ptr : N) : env :=
+  [("self", VPtr foot (VRec [("ptr", VN ptr); ("data", VN start)]))].
+Lemma src_chunk_parts_ok foot start ptr : ptr <= foot ->
+  call_fn src_fns (footer_self foot start ptr) "chunk_parts_ptr" [] = Ret (VN ptr) /\
+  call_fn src_fns (footer_self foot start ptr) "chunk_parts_len" [] = Ret (VN (foot - ptr)).
+Proof.
+  intros H. assert (T : (ptr <=? foot) = true) by (apply N.leb_le; exact H).
+  split; unfold call_fn;
+    cbv beta iota zeta delta
+      [call_fn eval lookup bind finish meth0 meth1 fn_params fn_body src_fns footer_self
+       String.eqb Ascii.eqb Bool.eqb List.app List.combine List.length
+       Datatypes.app Datatypes.length List.rev Nat.eqb FUEL_SEM fst snd];
+    rewrite ?T; reflexivity.
+Qed.
